@@ -216,7 +216,12 @@ func runC08(r *hx.Run, replay string) {
 		file := enFile(r)
 		name := hx.Pick(rr, checks.CheckNames)
 		sw := hx.Pick(rr, []string{"disabled-flag", "disabled-config", "rule-disable", "enabled-flag", "enabled-config", "offline"})
-		c08Eval(r, c08Case{Config: c08AllKinds, File: file, Switch: sw, Name: name})
+		cfgAll := c08AllKinds
+		if rr.Intn(2) == 0 {
+			// rule-level enable lists must not leak other reporters into an --enabled N run
+			cfgAll += fmt.Sprintf("\nrule {\n  enable = [%q, %q]\n}\n", hx.Pick(rr, checks.CheckNames), hx.Pick(rr, []string{"alerts/comparison", "promql/fragile", "alerts/template", "promql/regexp", "rule/label"}))
+		}
+		c08Eval(r, c08Case{Config: cfgAll, File: file, Switch: sw, Name: name})
 
 		cfgText := enConfig(r, rr.Intn(2) == 0)
 		env, err := enLoad(r, cfgText)
